@@ -76,5 +76,115 @@ Complete(s) ==
   /\ \A p \in Pid, f \in Fmt : s.doc[p][f] # Junk
 I_C09_Complete == IsState => Judge("C09_Complete", Complete(S))
 
+(***************************************************************************)
+(* The sequential properties under concurrency.                            *)
+(* C01 / C03 / C04 / C05 / C06 / C11 quantify over "whatever calls are made *)
+(* in between"; when the calls overlap in time the same promises must hold *)
+(* for the observed results and the final state.  Every clause below is    *)
+(* implied by linearizability w.r.t. Apply, so it holds whenever           *)
+(* I_Linearizable holds; it is reported under the property whose sentence  *)
+(* it restates (a change that breaks C04 only under a particular           *)
+(* interleaving is a C04 violation, not just a C07 one).                   *)
+(***************************************************************************)
+NC(o) == Len(o.calls)
+Deletes(o, p)  == \E j \in 1..NC(o) : o.calls[j].op = "delete" /\ o.calls[j].pid = p
+NDeletes(o, p) == Cardinality({j \in 1..NC(o) : o.calls[j].op = "delete" /\ o.calls[j].pid = p})
+RefsIntact(s, p, c) == s.pref[p] = c /\ s.cref[c].has /\ CountIn(p, s.cref[c].pids) = 1
+Intact(s, p, c)     == RefsIntact(s, p, c) /\ s.obj[c] = "ok"
+BindersOk(o, p) == {j \in 1..NC(o) : /\ o.calls[j].op \in {"store", "tag"}
+                                     /\ o.calls[j].pid = p /\ o.results[j].cls = "ok"}
+BoundTo(o, p, c) == \* p was bound to the stored object c at the start, or by a successful
+  \/ Intact(o.start, p, c)                    \* store_object of the scenario (tag_object binds
+  \/ \E j \in BindersOk(o, p) : o.calls[j].c = c /\ o.calls[j].op = "store"   \* absent objects too)
+
+\* C01: "from then until delete_object(pid) every retrieve_object(pid) yields exactly those
+\* bytes, whatever calls are made on other pids in between"
+ConcStoreStays(o) ==
+  \A j \in 1..NC(o) :
+    (o.calls[j].op = "store" /\ o.results[j].cls = "ok" /\ ~Deletes(o, o.calls[j].pid))
+      => Intact(o.final, o.calls[j].pid, o.calls[j].c)
+ConcRetrieve(o) ==
+  \A j \in 1..NC(o) :
+    (o.calls[j].op = "retrieve" /\ ~Deletes(o, o.calls[j].pid))
+      => \A c \in Cid : Intact(o.start, o.calls[j].pid, c)
+            => (o.results[j].cls = "ok" /\ o.results[j].data = c /\ o.results[j].truth)
+
+\* C03: one binding per pid until delete_object(pid) has completed
+ConcSingleBinding(o) ==
+  /\ \A p \in Pid : Cardinality(BindersOk(o, p))
+                      <= NDeletes(o, p) + (IF o.start.pref[p] = None THEN 1 ELSE 0)
+  /\ \A p \in Pid : \A c \in Cid :
+        InSeq(p, o.final.cref[c].pids) => o.final.pref[p] = c
+  /\ \A p \in Pid : \A c \in Cid :
+        (RefsIntact(o.start, p, c) /\ ~Deletes(o, p)) => RefsIntact(o.final, p, c)
+
+\* C04: while a pid is bound to a cid the object stays
+ConcReferencedKept(o) ==
+  \A p \in Pid : \A c \in Cid :
+    (BoundTo(o, p, c) /\ ~Deletes(o, p)) => Intact(o.final, p, c)
+
+\* C05: bookkeeping exact once every call has completed
+RefsConsistent(s) ==
+  /\ \A p \in Pid : s.pref[p] \in Cid \cup {None}
+  /\ \A c \in Cid :
+       IF \E p \in Pid : s.pref[p] = c
+         THEN /\ s.cref[c].has
+              /\ SeqRange(s.cref[c].pids) = {p \in Pid : s.pref[p] = c}
+              /\ \A p \in Pid : CountIn(p, s.cref[c].pids) <= 1
+         ELSE s.cref[c] = NoList
+  /\ s.junk = 0
+ConcRefsExact(o) == RefsConsistent(o.start) => RefsConsistent(o.final)
+
+\* C06: an invalid verdict removes the object only "if nothing references it"
+ConcVerdictKeepsReferenced(o) ==
+  \A j \in 1..NC(o) :
+    o.calls[j].op = "dii" =>
+      \A p \in Pid :
+        (BoundTo(o, p, o.calls[j].c) /\ ~Deletes(o, p) /\
+           (o.start.obj[o.calls[j].c] = "ok" \/
+              \E i \in 1..NC(o) : o.calls[i].op \in {"store", "storenp"} /\ o.calls[i].c = o.calls[j].c
+                                   /\ o.results[i].cls = "ok"))
+          => o.final.obj[o.calls[j].c] = "ok"
+
+\* C11: documents of different (pid, format) pairs never affect one another; a reader of a
+\* document nobody deletes gets one of the versions stored for that pair
+Touches(call, p, f) ==
+  /\ call.pid = p
+  /\ \/ call.op = "delete"
+     \/ call.op = "delmeta" /\ (call.fmt = NoFmt \/ call.fmt = f)
+     \/ call.op = "putmeta" /\ EffFmt(call.fmt) = f
+Removes(call, p, f) == Touches(call, p, f) /\ call.op # "putmeta"
+ConcDocIsolation(o) ==
+  \A p \in Pid, f \in Fmt :
+    (\A j \in 1..NC(o) : ~Touches(o.calls[j], p, f)) => o.final.doc[p][f] = o.start.doc[p][f]
+ConcDocLastWrite(o) ==
+  \A j \in 1..NC(o) :
+    (o.calls[j].op = "putmeta" /\ o.results[j].cls = "ok" /\
+       \A i \in 1..NC(o) : i # j => ~Touches(o.calls[i], o.calls[j].pid, EffFmt(o.calls[j].fmt)))
+      => o.final.doc[o.calls[j].pid][EffFmt(o.calls[j].fmt)] = o.calls[j].ver
+ConcDocRetrieve(o) ==
+  \A j \in 1..NC(o) :
+    LET p == o.calls[j].pid
+        f == EffFmt(o.calls[j].fmt) IN
+    (o.calls[j].op = "getmeta" /\ o.start.doc[p][f] \in Ver /\
+       \A i \in 1..NC(o) : ~Removes(o.calls[i], p, f))
+      => /\ o.results[j].cls = "ok" /\ o.results[j].truth
+         /\ o.results[j].data \in {o.start.doc[p][f]} \cup
+              {o.calls[i].ver : i \in {i \in 1..NC(o) : o.calls[i].op = "putmeta" /\ Touches(o.calls[i], p, f)}}
+
+Quiet == IsOutcome /\ ~O.deadlock
+I_C01_Conc == Quiet => /\ Judge("C01_ConcStoreStays", ConcStoreStays(O))
+                       /\ Judge("C01_ConcRetrieve", ConcRetrieve(O))
+I_C03_Conc == Quiet => Judge("C03_ConcSingleBinding", ConcSingleBinding(O))
+I_C04_Conc == Quiet => Judge("C04_ConcReferencedKept", ConcReferencedKept(O))
+I_C05_Conc == Quiet => Judge("C05_ConcRefsExact", ConcRefsExact(O))
+I_C06_Conc == Quiet => Judge("C06_ConcVerdictKeepsReferenced", ConcVerdictKeepsReferenced(O))
+I_C11_Conc == Quiet => /\ Judge("C11_ConcDocIsolation", ConcDocIsolation(O))
+                       /\ Judge("C11_ConcDocLastWrite", ConcDocLastWrite(O))
+                       /\ Judge("C11_ConcDocRetrieve", ConcDocRetrieve(O))
+\* C07 / C12: an execution in which some call never returns has no outcome that a sequential
+\* order could equal
+I_EveryCallReturns == IsOutcome => Judge(O.family \o "_EveryCallReturns", ~O.deadlock)
+
 AllJudged == PrintT("JUDGED " \o ToString(TLCGet("stats").distinct - 1) \o " OF " \o ToString(NO + NS))
 =============================================================================
